@@ -29,7 +29,12 @@ def _want_match(shapes):
 WANT = {"merge_cond_shapes": _want_merge, "check_shapes_match": _want_match}
 
 
-def decide(prog, name, universe=UNIVERSE, max_len=3):
+def decide(prog, name, universe=None, max_len=None):
+    from . import shapeexec
+    if universe is None:
+        universe = UNIVERSE + ((1,), (2, 3, 4), (3, 2)) if shapeexec.THOROUGH[0] else UNIVERSE
+    if max_len is None:
+        max_len = 4 if shapeexec.THOROUGH[0] else 3
     """-> ("holds", n_cases) | ("violated", message) | None (outside the evaluated subset)."""
     try:
         m, fn = prog.func(U + name)
